@@ -10,6 +10,7 @@ HARNESSES = {
     'c15': dict(flavour='asan', srcs=['c15.cpp']),
     'c09': dict(flavour='asan', srcs=['c09.cpp']),
     'c03': dict(flavour='asan', srcs=['c03.cpp']),
+    'c07': dict(flavour='asan', srcs=['c07.cpp']),
 }
 
 PROPS = {
@@ -158,6 +159,22 @@ PROPS = {
              'present with >=1 attempt.',
         assumptions=['the root cgroup is not generated as a ranked target (its statistics come from host files)',
                      'cases whose ranking hits a rounding-uncertain phase comparison are counted and not judged'],
+    ),
+    'C07': dict(
+        harness='c07', level='exploration',
+        quick=dict(shards=8, n=600, size=100),
+        thorough=dict(shards=16, n=25000, size=100),
+        rule='rapidcheck-generated scenario: small tree, 0-3 base prekill hooks and 0-2 drop-in units of hooks (1-3 '
+             'patterns each: /, literal, * components, non-matching), prekill_hook_timeout 0..10 s, per-fire hook '
+             'completion after k polls or never, 3-8 ticks spaced 1-4 s around the deadline, kill outcomes that force '
+             'fallback victims, populated cgroups removed or re-created under the same path during the history, one or '
+             'two kill actions in the chain (shared window). Oracle: invariants over the interleaved fire / poll / '
+             'destroy / kill / xattr trace (priority and pattern model, window, no side effect on the victim before '
+             'finish or timeout, invocation destroyed before the first signal, at most one outstanding invocation, a '
+             'victim that vanished or was re-created during the wait is not touched). Non-trivial = a deferred hook '
+             'followed by a failed kill and a second fire for the fallback victim, or a victim vanishing / being '
+             're-created during the wait.',
+        assumptions=['a tick landing exactly on the deadline is a don\'t-care'],
     ),
 }
 
